@@ -9,18 +9,70 @@ import (
 	"github.com/avos-io/goat/vrt/vsched"
 )
 
-func AddUint64(p *uint64, d uint64) uint64 { vsched.YieldSkip("atomic", 1); vsched.AtomicSync(unsafe.Pointer(p)); *p += d; return *p }
-func AddInt64(p *int64, d int64) int64     { vsched.YieldSkip("atomic", 1); vsched.AtomicSync(unsafe.Pointer(p)); *p += d; return *p }
-func AddUint32(p *uint32, d uint32) uint32 { vsched.YieldSkip("atomic", 1); vsched.AtomicSync(unsafe.Pointer(p)); *p += d; return *p }
-func AddInt32(p *int32, d int32) int32     { vsched.YieldSkip("atomic", 1); vsched.AtomicSync(unsafe.Pointer(p)); *p += d; return *p }
-func LoadUint64(p *uint64) uint64          { vsched.YieldSkip("atomic", 1); vsched.AtomicSync(unsafe.Pointer(p)); return *p }
-func LoadInt64(p *int64) int64             { vsched.YieldSkip("atomic", 1); vsched.AtomicSync(unsafe.Pointer(p)); return *p }
-func LoadUint32(p *uint32) uint32          { vsched.YieldSkip("atomic", 1); vsched.AtomicSync(unsafe.Pointer(p)); return *p }
-func LoadInt32(p *int32) int32             { vsched.YieldSkip("atomic", 1); vsched.AtomicSync(unsafe.Pointer(p)); return *p }
-func StoreUint64(p *uint64, v uint64)      { vsched.YieldSkip("atomic", 1); vsched.AtomicSync(unsafe.Pointer(p)); *p = v }
-func StoreInt64(p *int64, v int64)         { vsched.YieldSkip("atomic", 1); vsched.AtomicSync(unsafe.Pointer(p)); *p = v }
-func StoreUint32(p *uint32, v uint32)      { vsched.YieldSkip("atomic", 1); vsched.AtomicSync(unsafe.Pointer(p)); *p = v }
-func StoreInt32(p *int32, v int32)         { vsched.YieldSkip("atomic", 1); vsched.AtomicSync(unsafe.Pointer(p)); *p = v }
+func AddUint64(p *uint64, d uint64) uint64 {
+	vsched.YieldSkip("atomic", 1)
+	vsched.AtomicSync(unsafe.Pointer(p))
+	*p += d
+	return *p
+}
+func AddInt64(p *int64, d int64) int64 {
+	vsched.YieldSkip("atomic", 1)
+	vsched.AtomicSync(unsafe.Pointer(p))
+	*p += d
+	return *p
+}
+func AddUint32(p *uint32, d uint32) uint32 {
+	vsched.YieldSkip("atomic", 1)
+	vsched.AtomicSync(unsafe.Pointer(p))
+	*p += d
+	return *p
+}
+func AddInt32(p *int32, d int32) int32 {
+	vsched.YieldSkip("atomic", 1)
+	vsched.AtomicSync(unsafe.Pointer(p))
+	*p += d
+	return *p
+}
+func LoadUint64(p *uint64) uint64 {
+	vsched.YieldSkip("atomic", 1)
+	vsched.AtomicSync(unsafe.Pointer(p))
+	return *p
+}
+func LoadInt64(p *int64) int64 {
+	vsched.YieldSkip("atomic", 1)
+	vsched.AtomicSync(unsafe.Pointer(p))
+	return *p
+}
+func LoadUint32(p *uint32) uint32 {
+	vsched.YieldSkip("atomic", 1)
+	vsched.AtomicSync(unsafe.Pointer(p))
+	return *p
+}
+func LoadInt32(p *int32) int32 {
+	vsched.YieldSkip("atomic", 1)
+	vsched.AtomicSync(unsafe.Pointer(p))
+	return *p
+}
+func StoreUint64(p *uint64, v uint64) {
+	vsched.YieldSkip("atomic", 1)
+	vsched.AtomicSync(unsafe.Pointer(p))
+	*p = v
+}
+func StoreInt64(p *int64, v int64) {
+	vsched.YieldSkip("atomic", 1)
+	vsched.AtomicSync(unsafe.Pointer(p))
+	*p = v
+}
+func StoreUint32(p *uint32, v uint32) {
+	vsched.YieldSkip("atomic", 1)
+	vsched.AtomicSync(unsafe.Pointer(p))
+	*p = v
+}
+func StoreInt32(p *int32, v int32) {
+	vsched.YieldSkip("atomic", 1)
+	vsched.AtomicSync(unsafe.Pointer(p))
+	*p = v
+}
 func CompareAndSwapUint64(p *uint64, o, n uint64) bool {
 	vsched.YieldSkip("atomic", 1)
 	vsched.AtomicSync(unsafe.Pointer(p))
@@ -60,9 +112,22 @@ func CompareAndSwapUint32(p *uint32, o, n uint32) bool {
 
 type Int64 struct{ v int64 }
 
-func (x *Int64) Load() int64       { vsched.YieldSkip("atomic", 1); vsched.AtomicSync(unsafe.Pointer(x)); return x.v }
-func (x *Int64) Store(v int64)     { vsched.YieldSkip("atomic", 1); vsched.AtomicSync(unsafe.Pointer(x)); x.v = v }
-func (x *Int64) Add(d int64) int64 { vsched.YieldSkip("atomic", 1); vsched.AtomicSync(unsafe.Pointer(x)); x.v += d; return x.v }
+func (x *Int64) Load() int64 {
+	vsched.YieldSkip("atomic", 1)
+	vsched.AtomicSync(unsafe.Pointer(x))
+	return x.v
+}
+func (x *Int64) Store(v int64) {
+	vsched.YieldSkip("atomic", 1)
+	vsched.AtomicSync(unsafe.Pointer(x))
+	x.v = v
+}
+func (x *Int64) Add(d int64) int64 {
+	vsched.YieldSkip("atomic", 1)
+	vsched.AtomicSync(unsafe.Pointer(x))
+	x.v += d
+	return x.v
+}
 func (x *Int64) Swap(n int64) int64 {
 	vsched.YieldSkip("atomic", 1)
 	vsched.AtomicSync(unsafe.Pointer(x))
@@ -82,26 +147,73 @@ func (x *Int64) CompareAndSwap(o, n int64) bool {
 
 type Uint64 struct{ v uint64 }
 
-func (x *Uint64) Load() uint64        { vsched.YieldSkip("atomic", 1); vsched.AtomicSync(unsafe.Pointer(x)); return x.v }
-func (x *Uint64) Store(v uint64)      { vsched.YieldSkip("atomic", 1); vsched.AtomicSync(unsafe.Pointer(x)); x.v = v }
-func (x *Uint64) Add(d uint64) uint64 { vsched.YieldSkip("atomic", 1); vsched.AtomicSync(unsafe.Pointer(x)); x.v += d; return x.v }
+func (x *Uint64) Load() uint64 {
+	vsched.YieldSkip("atomic", 1)
+	vsched.AtomicSync(unsafe.Pointer(x))
+	return x.v
+}
+func (x *Uint64) Store(v uint64) {
+	vsched.YieldSkip("atomic", 1)
+	vsched.AtomicSync(unsafe.Pointer(x))
+	x.v = v
+}
+func (x *Uint64) Add(d uint64) uint64 {
+	vsched.YieldSkip("atomic", 1)
+	vsched.AtomicSync(unsafe.Pointer(x))
+	x.v += d
+	return x.v
+}
 
 type Int32 struct{ v int32 }
 
-func (x *Int32) Load() int32       { vsched.YieldSkip("atomic", 1); vsched.AtomicSync(unsafe.Pointer(x)); return x.v }
-func (x *Int32) Store(v int32)     { vsched.YieldSkip("atomic", 1); vsched.AtomicSync(unsafe.Pointer(x)); x.v = v }
-func (x *Int32) Add(d int32) int32 { vsched.YieldSkip("atomic", 1); vsched.AtomicSync(unsafe.Pointer(x)); x.v += d; return x.v }
+func (x *Int32) Load() int32 {
+	vsched.YieldSkip("atomic", 1)
+	vsched.AtomicSync(unsafe.Pointer(x))
+	return x.v
+}
+func (x *Int32) Store(v int32) {
+	vsched.YieldSkip("atomic", 1)
+	vsched.AtomicSync(unsafe.Pointer(x))
+	x.v = v
+}
+func (x *Int32) Add(d int32) int32 {
+	vsched.YieldSkip("atomic", 1)
+	vsched.AtomicSync(unsafe.Pointer(x))
+	x.v += d
+	return x.v
+}
 
 type Uint32 struct{ v uint32 }
 
-func (x *Uint32) Load() uint32        { vsched.YieldSkip("atomic", 1); vsched.AtomicSync(unsafe.Pointer(x)); return x.v }
-func (x *Uint32) Store(v uint32)      { vsched.YieldSkip("atomic", 1); vsched.AtomicSync(unsafe.Pointer(x)); x.v = v }
-func (x *Uint32) Add(d uint32) uint32 { vsched.YieldSkip("atomic", 1); vsched.AtomicSync(unsafe.Pointer(x)); x.v += d; return x.v }
+func (x *Uint32) Load() uint32 {
+	vsched.YieldSkip("atomic", 1)
+	vsched.AtomicSync(unsafe.Pointer(x))
+	return x.v
+}
+func (x *Uint32) Store(v uint32) {
+	vsched.YieldSkip("atomic", 1)
+	vsched.AtomicSync(unsafe.Pointer(x))
+	x.v = v
+}
+func (x *Uint32) Add(d uint32) uint32 {
+	vsched.YieldSkip("atomic", 1)
+	vsched.AtomicSync(unsafe.Pointer(x))
+	x.v += d
+	return x.v
+}
 
 type Bool struct{ v bool }
 
-func (x *Bool) Load() bool   { vsched.YieldSkip("atomic", 1); vsched.AtomicSync(unsafe.Pointer(x)); return x.v }
-func (x *Bool) Store(v bool) { vsched.YieldSkip("atomic", 1); vsched.AtomicSync(unsafe.Pointer(x)); x.v = v }
+func (x *Bool) Load() bool {
+	vsched.YieldSkip("atomic", 1)
+	vsched.AtomicSync(unsafe.Pointer(x))
+	return x.v
+}
+func (x *Bool) Store(v bool) {
+	vsched.YieldSkip("atomic", 1)
+	vsched.AtomicSync(unsafe.Pointer(x))
+	x.v = v
+}
 func (x *Bool) Swap(n bool) bool {
 	vsched.YieldSkip("atomic", 1)
 	vsched.AtomicSync(unsafe.Pointer(x))
@@ -121,10 +233,26 @@ func (x *Bool) CompareAndSwap(o, n bool) bool {
 
 type Value struct{ v any }
 
-func (x *Value) Load() any   { vsched.YieldSkip("atomic", 1); vsched.AtomicSync(unsafe.Pointer(x)); return x.v }
-func (x *Value) Store(v any) { vsched.YieldSkip("atomic", 1); vsched.AtomicSync(unsafe.Pointer(x)); x.v = v }
+func (x *Value) Load() any {
+	vsched.YieldSkip("atomic", 1)
+	vsched.AtomicSync(unsafe.Pointer(x))
+	return x.v
+}
+func (x *Value) Store(v any) {
+	vsched.YieldSkip("atomic", 1)
+	vsched.AtomicSync(unsafe.Pointer(x))
+	x.v = v
+}
 
 type Pointer[T any] struct{ p *T }
 
-func (x *Pointer[T]) Load() *T   { vsched.YieldSkip("atomic", 1); vsched.AtomicSync(unsafe.Pointer(x)); return x.p }
-func (x *Pointer[T]) Store(p *T) { vsched.YieldSkip("atomic", 1); vsched.AtomicSync(unsafe.Pointer(x)); x.p = p }
+func (x *Pointer[T]) Load() *T {
+	vsched.YieldSkip("atomic", 1)
+	vsched.AtomicSync(unsafe.Pointer(x))
+	return x.p
+}
+func (x *Pointer[T]) Store(p *T) {
+	vsched.YieldSkip("atomic", 1)
+	vsched.AtomicSync(unsafe.Pointer(x))
+	x.p = p
+}
